@@ -22,6 +22,8 @@ pub mod term;
 pub mod transform;
 pub mod typ;
 pub mod typecheck;
+#[cfg(feature = "verif-hooks")]
+pub mod verif_hooks;
 
 #[cfg(feature = "format")]
 pub mod format;
